@@ -23,6 +23,9 @@ BINARY = [
     ('A-B', lambda: Ins('EXPR', t=2, s1=0, s2=1, x=4)),
     ('move(A)-B', lambda: Ins('EXPR', t=2, s1=0, s2=1, x=5)),
     ('A*B (scalar product)', lambda: Ins('TRACE', t=0, s1=1, ext=2)),
+    ('(A+A)*(B+B) (scalar product of two expressions)', lambda: Ins('TRACE', t=0, s1=1, ext=2, y=1)),
+    ('A*(B+B) (scalar product with an expression)', lambda: Ins('TRACE', t=0, s1=1, ext=2, y=2)),
+    ('iCommutator(A,A)*iCommutator(B,B)', lambda: Ins('TRACE', t=0, s1=1, ext=2, y=3)),
     ('iCommutator(A,B)', lambda: Ins('EXPR', t=2, s1=0, s2=1, x=12)),
     ('ACommutator(A,B)', lambda: Ins('EXPR', t=2, s1=0, s2=1, x=13)),
     ('ElementwiseOperation(op,A,B)', lambda: Ins('EXPR', t=2, s1=0, s2=1, x=20)),
